@@ -73,11 +73,14 @@ Definition ch_space : ascii := " "%char.
 (* one method of a named type: name, #params, #results, first param is a pointer, first result is a pointer *)
 Definition msig := (bytes * N * N * bool * bool)%type.
 
+(* x.Underlying() of a named type, as far as createFieldSnippet looks at it *)
+Inductive ukind := UStruct | UMap | UIface | UOther.
+
 Inductive ty :=
 | TBasic (n : bytes)                              (* int, string, uint8 … as types.Basic prints *)
 | TAny                                            (* any / interface{} *)
 | TError                                          (* the predeclared named type error: Obj().Pkg() == nil *)
-| TNamed (pkg name : bytes) (ms : list msig)      (* a named type with a package *)
+| TNamed (pkg name : bytes) (u : ukind) (ms : list msig)   (* a named type with a package, its underlying kind, its explicit methods *)
 | TPtr (e : ty)
 | TSlice (e : ty)
 | TArray (n : N) (e : ty)
@@ -112,7 +115,7 @@ Section WithTracker.
     | TBasic n => (OIdent n, [])
     | TAny => (OIdent (bs "any"), [])
     | TError => (OIdent (if fx_errlit c then bs "error" else bs "any"), [])
-    | TNamed pkg name _ =>
+    | TNamed pkg name _ _ =>
         if bytes_eqb pkg target then (OIdent name, []) else (OSel (L pkg) name, [pkg])
     | TPtr e => let (o, i) := type_lit e in (OPtr o, i)
     | TSlice e => let (o, i) := type_lit e in (OSlice o, i)
@@ -280,15 +283,21 @@ Section WithTracker.
     else if ptr && hc then SCallCopyDeref f dc_name
     else SAssign f.
 
+  Definition is_uiface (u : ukind) : bool := match u with UIface => true | _ => false end.
+  Definition is_umap (u : ukind) : bool := match u with UMap => true | _ => false end.
+
   (* createFieldSnippet; [replaced] = the FieldContext callback of partialstruct returned a context *)
   Definition field_stmt (replaced : bool) (f : field) : genres stmt :=
     match f_ty f with
-    | TNamed pkg _ ms =>
+    | TNamed pkg _ u ms =>
         if replaced then GOk (select_named (f_name f) (true, true, true)) []
         else
           let '(hc, hi, ptr) := scan_methods ms (false, false, true) in
-          if bytes_eqb pkg target
-          then GOk (select_named (f_name f) (true, true, ptr)) []        (* InSamePkg: "always gen" *)
+          (* `fc.InSamePkg && !isInterface`: "always gen"; the methods of a map type take and return the map itself.
+             (The two refinements are C17's repairs of copy_fields.go; before the agreement proof with C17's model
+             this branch read `if InSamePkg then (true, true, ptr)` for every underlying type.) *)
+          if bytes_eqb pkg target && negb (is_uiface u)
+          then GOk (select_named (f_name f) (true, true, if is_umap u then false else ptr)) []
           else GOk (select_named (f_name f) (hc, hi, ptr)) []
     | TError =>
         if replaced then GOk (select_named (f_name f) (true, true, true)) []
@@ -510,8 +519,8 @@ Fixpoint denotes (imps : list (bytes * bytes)) (target : bytes) (o : oty) (t : t
   | OIdent n, TBasic n' => bytes_eqb n n'
   | OIdent n, TAny => bytes_eqb n (bs "any")
   | OIdent n, TError => bytes_eqb n (bs "error")
-  | OIdent n, TNamed p n' _ => bytes_eqb p target && bytes_eqb n n'
-  | OSel q n, TNamed p n' _ =>
+  | OIdent n, TNamed p n' _ _ => bytes_eqb p target && bytes_eqb n n'
+  | OSel q n, TNamed p n' _ _ =>
       negb (bytes_eqb p target) && bytes_eqb n n' && option_eqb bytes_eqb (resolve imps q) (Some p)
   | OPtr a, TPtr b => denotes imps target a b
   | OSlice a, TSlice b => denotes imps target a b
@@ -539,7 +548,7 @@ Definition stmt_quals (s : stmt) : list bytes :=
 
 Fixpoint ty_pkgs (t : ty) : list bytes :=
   match t with
-  | TNamed p _ _ => [p]
+  | TNamed p _ _ _ => [p]
   | TPtr e | TSlice e | TArray _ e => ty_pkgs e
   | TMap k v => ty_pkgs k ++ ty_pkgs v
   | _ => []
